@@ -21,9 +21,12 @@ ASSUMPTIONS = ['names and file names contain no double quote, CR or LF and are n
                'content types carry no parameters; compared on .value when the API returns a header object',
                'the text volume (header blocks + text values) stays inside max_memfile_size (beyond it C13 applies)']
 
-NAME_ATOMS = ['a', 'b', 'field', 'x1', 'na;me', 'a=b', 'with space', 'back\\slash', 'é', '日本', 'k;v=w x', 'semi;', '=eq', 'tr\\', 'file', 'A', "q'uote", 'a,b', 'a:b', '[0]', 'x.y', 'a\\\\b', '\\\\srv\\share']
+NAME_ATOMS = ['a', 'b', 'field', 'x1', 'na;me', 'a=b', 'with space', 'back\\slash', 'é', '日本', 'k;v=w x', 'semi;', '=eq', 'tr\\', 'file', 'A', "q'uote", 'a,b', 'a:b', '[0]', 'x.y', 'a\\\\b', '\\\\srv\\share',
+              # text that is not in composed normal form (what macOS sends), signs with a compatibility equivalent, jamo: names are taken as sent
+              'cafe\u0301', 'caf\u00e9', '\u2126', '\u03a9', '\u212b', '\u00c5', '\u1112\u1161\u11ab', '\ud55c', '\ufb01', '\uf900']
 FILENAMES = ['f.txt', 'fi;le=x.txt', 'my file.bin', 'C:\\dir\\f.dat', 'ü.png', '日本.txt', 'a=b', 'semi;colon', '..', 'x' * 60, ' lead', 'f;filename=evil.txt',
-             'name=n', 'a;b;c', 'trail ', '.hidden', '\\\\fileserver\\share\\r.txt', 'dbl\\\\']
+             'name=n', 'a;b;c', 'trail ', '.hidden', '\\\\fileserver\\share\\r.txt', 'dbl\\\\',
+             're\u0301sume\u0301.pdf', '\u2126.txt', '\u212bngstro\u0308m.csv', '\u1112\u1161\u11ab.hwp']
 CTYPES = ['text/plain', 'application/octet-stream', 'image/png', 'application/x-custom+json', None]
 BOUNDARIES = ['B', 'boundary', '----WebKitFormBoundaryAbC123', "a'b", 'x+y_z-0.9', '-', '---', 'aaa', '0', 'B' * 70]
 
